@@ -9,7 +9,9 @@ import RsslVerif.Model.MslAst
 `append_arguments_for_globals`, `generate_invoke_simple`), `genStmt`/`genStmtsAcc` ↔ `generate_statement` /
 `generate_scope_block`, `genForInit`, `genVarDef`, `genFuncInner` ↔ `generate_function_inner`, `trampolineBody` ↔
 `generate_function_out_trampoline_body`, `genFuncs` ↔ `generate_function_and_trampoline`.
-Every Rust panic on these paths is an explicit `Except.error (.panic …)`.  What the exporter reads from its context
+Every Rust panic on these paths is an explicit `Except.error (.panic …)`, every `return Err(GenerateError::e)` an
+`Except.error (.diag e)` (since fix batch 2: `IntLiteralOutOfRange` 6017bad, `UnsupportedDouble` 9824ce3 — no modelled constant
+is a double —, `ComplexTypeBind` 922a181 in `generate_for_init`).  What the exporter reads from its context
 (names, types, `function_required_globals`, `called_functions`) is the parameter `Ctx`.
 -/
 namespace RsslVerif.Model.GenMsl
@@ -54,6 +56,7 @@ def genLiteral (c : Const) : Except GenErr HlslAst.Expr :=
   match findArm c.kind (GenHlsl.Const.intValue c) with
   | none => .error (.unsupported "no arm")
   | some .panics => .error (.panic "generate_literal: cannot represent")
+  | some (.errs e) => .error (.diag e)
   | some .enumLookup => .error (.unsupported "enum")
   | some (.plain k) => (mkLit k c).map .lit
   | some (.widen k) => (mkLit k c).map .lit
@@ -227,14 +230,15 @@ def genVarDef (cx : Ctx) (id : Nat) (init : Option Ir.Expr) : Except GenErr (Str
     | .error e => .error e
     | .ok i => .ok (tn, cx.locName id, i)
 
-/-- the tail of `generate_for_init`'s `Definitions` arm: every further definition must have the same base type -/
+/-- the tail of `generate_for_init`'s `Definitions` arm: every further definition must have the same base type, otherwise
+the export is refused with `Err(GenerateError::ComplexTypeBind)` (since fix 922a181; an `assert_eq!` before) -/
 def genForDefs (cx : Ctx) (ty : String) : List (Nat × Option Ir.Expr) → Except GenErr (List (String × Option HlslAst.Expr))
   | [] => .ok []
   | (id, init) :: r =>
     match genVarDef cx id init with
     | .error e => .error e
     | .ok (tn, name, i) =>
-      if tn ≠ ty then .error (.panic "generate_for_init: assertion failed: ast.local_type == tail_ast.local_type")
+      if tn ≠ ty then .error (.diag "ComplexTypeBind")
       else
         match genForDefs cx ty r with
         | .error e => .error e
